@@ -577,6 +577,10 @@ def is_mask(av):
 def filter_frame(it, f, mask, node, how="filter"):
     nf = f.clone()
     mt = to_term(mask)
+    ms_ = getattr(mask, "space", None)
+    if ms_ is not None and f.space is not None and not ms_.same(f.space) and getattr(mask, "lab", None) is None:
+        # an unlabelled (array) mask is applied by position: it must have been computed on the rows of this very table
+        it.record("space-mismatch", "filter", [f, mask], {}, node, {"frame_space": f.space, "value_space": ms_, "names": None})
     nf.space = Space(f"{f.name}[{tm.show(mt)[:60]}]", parent=f.space, how=how, key=mt.key())
     nf.space.mask = mt
     nf.filters = f.filters + [mt]
